@@ -68,7 +68,7 @@ CHECKS = {
     "C20": {
         "level": "exploration",
         "tests": [
-            {"name": "TestC20Attr", "checks": [150, 600], "shards": [2, 16], "floor": 0.8},
+            {"name": "TestC20Attr", "checks": [150, 250], "shards": [2, 16], "floor": 0.8},
             {"name": "TestC20Family", "enum": True},
             K,
         ],
